@@ -43,6 +43,11 @@ type c16Dest struct {
 	E []string
 	// filler fields: wide schemas (operands of 9 and more fields)
 	F, G, H, I, J, K, L, M, N, O string
+	// a nested struct under a key that several operands define differently
+	P struct {
+		X string
+		Y int
+	}
 }
 
 // field definitions: several variants per key so that "later operand wins" is observable
@@ -63,6 +68,12 @@ var c16Fields = []c16FieldDef{
 	{"d", func() z.ZogSchema { return z.String().Len(2) }},
 	{"e", func() z.ZogSchema { return z.Slice(z.String().Min(2)).Min(2) }},
 	{"e", func() z.ZogSchema { return z.Slice(z.String()).Max(1).Required() }},
+	// nested struct schemas with different fields: on a conflict the later operand's definition replaces the earlier one as a whole
+	{"p", func() z.ZogSchema { return z.Struct(z.Schema{"x": z.String().Required()}) }},
+	{"p", func() z.ZogSchema { return z.Struct(z.Schema{"y": z.Int().GT(3)}) }},
+	{"p", func() z.ZogSchema {
+		return z.Struct(z.Schema{"x": z.String().Min(3), "y": z.Int().Required()}).TestFunc(func(any, z.Ctx) bool { return false }, z.IssueCode("p_struct_test"))
+	}},
 }
 
 // c16Wide: index of the first filler definition (two conflicting variants for each of the keys f..o)
@@ -506,11 +517,12 @@ func genC16(rt *rapid.T, maxOps int) c16Case {
 		"c": {model.Bool(true), model.Bool(false), model.Nil()},
 		"d": {model.Str("dd"), model.Str("d"), model.Nil()},
 		"e": {model.List(model.Str("e1"), model.Str("e2")), model.List(model.Str("e")), model.Nil()},
+		"p": {model.Map(model.KV{K: "x", V: model.Str("xx")}, model.KV{K: "y", V: model.Int(5)}), model.Map(model.KV{K: "y", V: model.Int(1)}), model.Map(model.KV{K: "x", V: model.Str("xxxx")}), model.Nil()},
 	}
 	wideKeys := []string{"f", "g", "h", "i", "j", "k", "l", "m", "n", "o"}
 	for i, k := 0, rapid.IntRange(2, 3).Draw(rt, "ninputs"); i < k; i++ {
 		in := model.Val{T: "map"}
-		for _, key := range []string{"a", "b", "c", "d", "e"} {
+		for _, key := range []string{"a", "b", "c", "d", "e", "p"} {
 			v := rapid.SampledFrom(vals[key]).Draw(rt, "v"+key)
 			if !v.IsNil() {
 				in.M = append(in.M, model.KV{K: key, V: v})
